@@ -73,6 +73,8 @@ M = [
 ]
 
 
+THOROUGH_ONLY = {'m-c07-racy-global'}     # races between two lines: found by line-level pre-emption, a thorough-tier matter
+
 EQUIVALENT = {
  'm-c11-3071': 'no RSA size on the 64-bit grid of the quantifier lies between 3071 and 3072',
  'm-c12-early-exit': 'only adds one redundant probe whose answer cannot be smaller for a monotone policy; the reported size is unchanged',
@@ -112,6 +114,8 @@ def main():
             diff = subprocess.check_output(['git', '-C', d, 'diff']).decode()
             open(os.path.join(HERE, 'mutants', mid + '.patch'), 'w').write(diff)
             ent = {'patch': 'mutants/%s.patch' % mid, 'property': pid, 'origin': 'hand-written', 'what': what, 'repo_tests': tests}
+            if mid in THOROUGH_ONLY:
+                ent['tier'] = 'thorough'
             if mid in EQUIVALENT:
                 ent['expect'] = 'equivalent'
                 ent['why_equivalent'] = EQUIVALENT[mid]
